@@ -17,9 +17,10 @@ import (
 )
 
 type c04Bounds struct {
-	Name     string
+	Name     string // the package-level variable (whatever it is called)
 	Min, Max uint64
 	Names    map[string]uint64 // nil = no names
+	Fields   map[string]uint64 // raw unsigned fields by field name
 	Pos      token.Pos
 }
 
@@ -60,8 +61,10 @@ func c04ConstString(pkg *packages.Package, e ast.Expr) (string, bool) {
 	return constant.StringVal(tv.Value), true
 }
 
-// c04ReadBounds evaluates `var <name> = bounds{min, max, names}`.
-func c04ReadBounds(pkg *packages.Package, name string) (*c04Bounds, string) {
+// c04ReadTable evaluates the composite literal initialising a package-level
+// variable of the bounds-like struct type: unsigned constants per field name
+// and the (one) string->uint map field.
+func c04ReadTable(pkg *packages.Package, name string) (*c04Bounds, string) {
 	init, pos := c04PkgVarInit(pkg, name)
 	if init == nil {
 		return nil, "package-level variable " + name + " with an initialiser not found"
@@ -74,58 +77,58 @@ func c04ReadBounds(pkg *packages.Package, name string) (*c04Bounds, string) {
 	if !ok {
 		return nil, name + " is not a struct literal"
 	}
-	b := &c04Bounds{Name: name, Pos: pos}
-	seen := map[string]bool{}
+	b := &c04Bounds{Name: name, Pos: pos, Fields: map[string]uint64{}}
+	for i := 0; i < st.NumFields(); i++ {
+		if _, isMap := st.Field(i).Type().Underlying().(*types.Map); !isMap {
+			b.Fields[st.Field(i).Name()] = 0 // omitted fields are zero
+		}
+	}
 	for i, el := range cl.Elts {
-		fname := ""
+		var fld *types.Var
 		val := el
 		if kv, ok := el.(*ast.KeyValueExpr); ok {
 			if id, ok := kv.Key.(*ast.Ident); ok {
-				fname = id.Name
+				for j := 0; j < st.NumFields(); j++ {
+					if st.Field(j).Name() == id.Name {
+						fld = st.Field(j)
+					}
+				}
 			}
 			val = kv.Value
 		} else if i < st.NumFields() {
-			fname = st.Field(i).Name()
+			fld = st.Field(i)
 		}
-		seen[fname] = true
-		switch fname {
-		case "min", "max":
-			v, ok := c04ConstUint(pkg, val)
-			if !ok {
-				return nil, name + "." + fname + " is not a constant"
-			}
-			if fname == "min" {
-				b.Min = v
-			} else {
-				b.Max = v
-			}
-		case "names":
+		if fld == nil {
+			return nil, name + " has an element that is not a field of its type"
+		}
+		if _, isMap := fld.Type().Underlying().(*types.Map); isMap {
 			if id, ok := ast.Unparen(val).(*ast.Ident); ok && id.Name == "nil" {
 				continue
 			}
 			ml, ok := ast.Unparen(val).(*ast.CompositeLit)
 			if !ok {
-				return nil, name + ".names is neither nil nor a map literal"
+				return nil, name + "." + fld.Name() + " is neither nil nor a map literal"
 			}
 			b.Names = map[string]uint64{}
 			for _, e := range ml.Elts {
 				kv, ok := e.(*ast.KeyValueExpr)
 				if !ok {
-					return nil, name + ".names has a non key/value element"
+					return nil, name + "." + fld.Name() + " has a non key/value element"
 				}
 				k, ok1 := c04ConstString(pkg, kv.Key)
 				v, ok2 := c04ConstUint(pkg, kv.Value)
 				if !ok1 || !ok2 {
-					return nil, name + ".names has a non-constant entry"
+					return nil, name + "." + fld.Name() + " has a non-constant entry"
 				}
 				b.Names[k] = v
 			}
-		default:
-			return nil, name + " has an unknown field " + fname
+			continue
 		}
-	}
-	if !seen["min"] || !seen["max"] {
-		// omitted fields are zero; max omitted is certainly not intended but is well defined
+		v, ok := c04ConstUint(pkg, val)
+		if !ok {
+			return nil, name + "." + fld.Name() + " is not a constant"
+		}
+		b.Fields[fld.Name()] = v
 	}
 	return b, ""
 }
